@@ -14,7 +14,7 @@ def add_shell(chk, kind, fields, tag="", meta=None):
 def judge_shell(chk):
     """requests whose answer is OK / ERR <what differs>: ERR is a failing input"""
     for cid, case in list(chk.cases.items()):
-        if case["kind"] not in ("ARCH", "CLI", "CONV", "EQV", "LIBR", "SLICEB"):
+        if case["kind"] not in ("ARCH", "CLI", "CONV", "EQV", "LIBR", "SLICEB", "UNSAFE"):
             continue
         impl = chk.results.get(cid, {}).get("impl")
         if impl is None:
@@ -213,7 +213,7 @@ def gen_C16_cli(chk):
 def gen_C16_big(chk):
     """archive entries far larger than one decompression chunk: a set whose BDD has thousands of
     nodes (pairs (a_i, b_i) with all a's ordered before all b's), next to small / empty / full sets"""
-    n = 12 if not thorough(chk) else 13
+    n = 13 if not thorough(chk) else 14
     names = ["a%02d" % i for i in range(n)] + ["b%02d" % i for i in range(n)]
     net = "".join("%s -> %s\n$%s: %s\n" % (v, v, v, v) for v in names)
     big = " | ".join("(a%02d & b%02d)" % (i, i) for i in range(n))
@@ -275,6 +275,13 @@ def gen_C17(chk):
             ctx = "%s=%s,%s=%s" % (gen.hx("p"), ctx_spec(rng), gen.hx("d"), ctx_spec(rng))
             add_shell(chk, "CLI", ["aeon", gen.hx(net), gen.hx(formula_file(rng, fs)), opts[1 + j % 3], ctx],
                       tag="cli-ctx", meta={"net": net})
+    # a result whose archive entry is several hundred kB of text
+    n_ = 13
+    names_ = ["a%02d" % i for i in range(n_)] + ["b%02d" % i for i in range(n_)]
+    bignet = "".join("%s -> %s\n$%s: %s\n" % (v, v, v, v) for v in names_)
+    bigf = " | ".join("(a%02d & b%02d)" % (i, i) for i in range(n_))
+    add_shell(chk, "CLI", ["aeon", gen.hx(bignet), gen.hx("a00 & ~b00\n%s\n~(%s)\n" % (bigf, bigf)), "summary", "-"],
+              tag="cli-big", meta={"net": "pairs%d" % n_})
     for nm, text in BNET.items():
         for j in range(cnt(chk, 2, 4)):
             props = ["A", "B", "C"] if nm == "B1" else (["a"] if nm == "B2" else ["a", "b"])
@@ -366,7 +373,9 @@ def gen_C19(chk):
              "a -?? b\na -?? c\nb -?? c\n$b: f(a)\n$c: f(a) => !f(b)\n", "b -?? a\n$a: !f(b)\n",
              "b -?? a\nc -?? a\n$a: !h(b, !c) ^ h(c, b)\n",
              "x -?? a\nx -?? b\ny -?? b\n$a: f(x, true)\n$b: f(x, y)\n", "x -?? a\n$a: f(x, true) ^ f(true, x)\n",
-             "x -?? a\n$a: f(x, x) <=> f(x, false)\n"]
+             "x -?? a\n$a: f(x, x) <=> f(x, false)\n",
+             "b -> a\nb -> c\n$c: f_a(b)\n", "b -?? a\nc -?? a\nb -?? d\nc -?? d\n$d: f_a(b, c)\n",
+             "b -> a\nb -> c\n$c: a_(b) | f_a_(b)\n"]
     for i in range(cnt(chk, 40, 160)):
         nets.append(random_conv_network(rng))
     for i in range(cnt(chk, 20, 60)):
